@@ -91,12 +91,26 @@ func ruleRemoveAllDropsEverything(c *Ctx, rule string) {
 		}
 	})
 	if found == nil {
-		an.Fatalf("UNRESOLVED anchor: node lookup in %s", c.fk(f))
+		c.R.Add(rule, c.fk(f), "len(methods)==0/drops-whole-handler-map", c.P.Pos(f.Pos()), false, "Tree.Remove no longer finds the node with Tree.Find (a side table answers instead): that the node it empties is the node the pattern resolves to in the current tree cannot be established — a stale entry of the side table makes Remove work on a detached node")
+		return
 	}
 	assume := func(cond ssa.Value) (bool, bool) {
+		// the node found is a node below the root: it is not the root and it has a parent
+		if v, neg := stripNot(cond); v != nil {
+			if bo, isBin := v.(*ssa.BinOp); isBin && (bo.Op == token.EQL || bo.Op == token.NEQ) {
+				for _, pair := range [][2]ssa.Value{{bo.X, bo.Y}, {bo.Y, bo.X}} {
+					if pair[0] == ssa.Value(found) && an.AP(pair[1]) == "recv."+a.FRootNode {
+						return (bo.Op == token.NEQ) != neg, true
+					}
+				}
+			}
+		}
 		x, k, eq, ok := an.CondAtom(cond)
 		if !ok {
 			return false, false
+		}
+		if k.Value == nil && an.AP(x) == an.AP(found)+"."+a.FParent {
+			return !eq, true
 		}
 		if lc, isCall := x.(*ssa.Call); isCall {
 			if _, isLen := builtinCall(lc, "len"); isLen && an.ConstKey(k) == "0" {
@@ -632,7 +646,15 @@ func ruleCleanTestsEveryChild(c *Ctx, rule string) {
 		}
 		for _, e := range l.elems {
 			n++
+			elemVal, _ := e.(ssa.Value)
 			path := (&an.Query{
+				// the child list holds no nil entries (every writer appends a fresh or dereferenced node)
+				Assume: func(cond ssa.Value) (bool, bool) {
+					if x, k, eq, ok := an.CondAtom(cond); ok && k.Value == nil && elemVal != nil && x == elemVal {
+						return !eq, true
+					}
+					return false, false
+				},
 				Block: func(in ssa.Instruction) bool { return isTest(in) },
 				BlockEdge: func(b *ssa.BasicBlock, succ int) bool {
 					// edges on which the test is known to be false: len(child text) < len(prefix)
@@ -725,6 +747,19 @@ func ruleCleanTestsEveryChild(c *Ctx, rule string) {
 			}
 			dom := an.DominatedByEdge(in, testTrue)
 			dead := an.DominatedByEdge(in, emptyEdge(a.FHandlers)) && an.DominatedByEdge(in, emptyEdge(a.FChildren))
+			if !dead {
+				// behind the true edge of a node predicate that looks at both (child.isEmpty())
+				dead = an.DominatedByEdge(in, func(b *ssa.BasicBlock, succ int) bool {
+					return edgeHas(b, succ, func(cond ssa.Value, truth bool) bool {
+						call, isCall := cond.(*ssa.Call)
+						if !isCall || !truth {
+							return false
+						}
+						sg := an.StaticCallee(&call.Call)
+						return sg != nil && isDeadPredicate(c, sg)
+					})
+				})
+			}
 			if dead {
 				deadMarks++
 			}
@@ -752,7 +787,7 @@ func ruleCleanTestsEveryChild(c *Ctx, rule string) {
 					return ap == child+"."+a.FChildren || ap == child+"."+a.FHandlers
 				}
 				if sg := an.StaticCallee(cc); sg != nil && sg.Signature.Recv() != nil && isPtrToNamed(sg.Signature.Recv().Type(), a.NodeT) && len(cc.Args) == 1 && an.AP(cc.Args[0]) == child {
-					return isSizeFunc(c, sg)
+					return isSizeFunc(c, sg) || isDeadPredicate(c, sg)
 				}
 				return false
 			}
@@ -975,4 +1010,35 @@ func isSizeFunc(c *Ctx, g *ssa.Function) bool {
 	}
 	cc, isLen := builtinCall(call, "len")
 	return isLen && an.AP(cc.Args[0]) == "recv."+a.FHandlers
+}
+
+// isDeadPredicate: a node method without parameters and with a boolean result that looks at both the handlers and the
+// children of its receiver (node.isEmpty()).
+func isDeadPredicate(c *Ctx, g *ssa.Function) bool {
+	a := c.A
+	if g == nil || len(g.Blocks) == 0 || g.Signature.Recv() == nil || !isPtrToNamed(g.Signature.Recv().Type(), a.NodeT) || len(g.Params) != 1 {
+		return false
+	}
+	if g.Signature.Results().Len() != 1 || !isBoolType(g.Signature.Results().At(0).Type()) {
+		return false
+	}
+	seesH, seesC := false, false
+	an.AllInstrs(g, func(x ssa.Instruction) {
+		cc := an.CallOf(x)
+		if cc == nil {
+			return
+		}
+		if b, isB := cc.Value.(*ssa.Builtin); isB && b.Name() == "len" && len(cc.Args) == 1 {
+			switch an.AP(cc.Args[0]) {
+			case "recv." + a.FChildren:
+				seesC = true
+			case "recv." + a.FHandlers:
+				seesH = true
+			}
+		}
+		if sg := an.StaticCallee(cc); sg != nil && isSizeFunc(c, sg) && len(cc.Args) == 1 && an.AP(cc.Args[0]) == "recv" {
+			seesH = true
+		}
+	})
+	return seesH && seesC
 }
